@@ -80,6 +80,9 @@ CONTRACTS['FrameItem._setup_frame_params_from_data'] = dict(
     stubs={'__getitem__': dict(returns_expr='data_index', pure=True),
            '_compute_spacing_and_direction': dict(returns='tuple[oneof[none,opq:scalar],oneof[none,bool]]', pure=True)},
     may_raise=['AnyException'],
+    # frame (C13, C14): the only write-time additions are the index bounds, spacing, direction and the units of the three numeric ones
+    modifies=[f'self.{a}.{f}' for a in ('index_min', 'index_max', 'spacing') for f in ('_value', '_units')] + ['self.direction._value'],
+    exc_modifies=[f'self.{a}.{f}' for a in ('index_min', 'index_max', 'spacing') for f in ('_value', '_units')] + ['self.direction._value'],
     raises={'RuntimeError': f'self.index_type._value is not None and ({IDX}.ndim != 1 or ({FLAG} and self._compute_spacing_and_direction({IDX})[0] is None))'},
     ensures=[KEEP('index_min'), KEEP('index_max'), KEEP('spacing'), KEEP('direction'),
              ('row-number-index-min-is-1', 'implies(self.index_type._value is None and old(self.index_min._value) is None, self.index_min._value == converted(self.index_min, 1))'),
@@ -133,6 +136,13 @@ for _mv in (True, False):
             params={'value': _spec}, returns='opq:stored', may_raise=['StubException'],
             ensures=[('each-value-converted-once-in-order', f'result == {exp}')])
 SPEC_UFS['conv'] = (('opq',), 'opq')
+# C04 / C12: an attribute that is not multivalued is written with the default count 1, so it must never come to hold several values
+for _shape, _spec in (('list-of-2', 'list[opq:uval]*2'), ('tuple-of-2', 'tuple[opq:uval,opq:uval]'), ('empty-list', 'list[opq:uval]*0')):
+    CONTRACTS[f'Attribute.convert_value[multivalued=False,{_shape}]'] = dict(
+        target='Attribute.convert_value', props=['C04', 'C12', 'C05'],
+        self_fields={'_multivalued': 'const:False', '_multidimensional': 'const:False', '_converter': 'stubfn1'},
+        params={'value': _spec}, returns='opq:stored', may_raise=['StubException'],
+        raises={'TypeError': 'True'}, ensures=[])
 
 # ---------------------------------------------------------------------------------------------- the setters themselves (behind the summaries above)
 CONTRACTS['Attribute.value.setter[verified]'] = dict(
@@ -155,5 +165,6 @@ CONTRACTS['DimensionAttribute.units.setter'] = dict(
 AV = lambda: {'cls': 'Attribute', 'fields': {'_value': 'opq:stored'}}
 CONTRACTS['OriginItem._run_checks_and_set_defaults'] = dict(
     props=['C05', 'C14'], self_fields={'name': 'str', 'field_name': AV()}, params={}, returns='none', may_raise=['AnyException'],
+    modifies=['self.field_name._value'], exc_modifies=['self.field_name._value'],
     ensures=[('field-name-given-by-the-user-is-kept', 'implies(old(self.field_name._value) is not None, self.field_name._value is old(self.field_name._value))'),
              ('documented-default-WILDCAT-only-when-unset', "implies(old(self.field_name._value) is None, self.field_name._value == converted(self.field_name, 'WILDCAT'))")])
